@@ -4,7 +4,7 @@
 set -u
 NAME=$1; ID=${NAME%%-*}; shift; CHECKS=${@:-$ID}
 OUT=/verif/seeded/$NAME
-PP=$OUT/patch.diff; for q in $OUT/patch_rebased_on_F30_fix.diff $OUT/patch_rebased.diff; do [ -f $q ] && PP=$q; done
+PP=$OUT/patch.diff; [ -f $OUT/patch_rebased.diff ] && PP=$OUT/patch_rebased.diff  # patch_rebased.diff is always the rebase onto the current /repo HEAD
 S=/var/tmp/pd-seed-$ID; rm -rf $S; cp -r /repo $S; git -C $S apply $PP || { echo "patch does not apply"; rm -rf $S; exit 2; }
 cd /verif; RES=""
 for c in $CHECKS; do
